@@ -187,7 +187,8 @@ def engine_ksched(pid, tier, seed, res, max_n=None):
             if run["status"] == "hang" or (run["broken"] and "spin" in run["broken"]):
                 res.hit("C09", "monitor", "call did not return / scheduler spins: " + str(run["broken"]), dict(base, kind="monitor"))
             if run["broken"]:
-                for p in SCHED_PROPS:
+                # (C17 too: a completion order the controller asks for must be reachable in both flavours)
+                for p in SCHED_PROPS + ["C17"]:
                     res.hit(p, "divergence", "controller could not drive the run: " + run["broken"], dict(base, kind="controller"))
             for seg in run["segs"]:
                 res.evaluations += 1
